@@ -84,6 +84,12 @@ def string_labels(prog):
 def check_strings(stats, strings, style, ws):
     """strings: list of bytes; one program printing all of them."""
     src = STRING_HELPER + 'empty @is_you() {\n' + ''.join('  p(%s);\n' % spell_string(s, style) for s in strings) + '}\n'
+    views = strings[:3]
+    if views:
+        # the same constants held in mutable global string variables and viewed as const byte[] three ways
+        src = ''.join('string gv%d = %s;\n' % (i, spell_string(s, style)) for i, s in enumerate(views)) + \
+            'empty pv(const byte[] b) { write(b.length); write(\':\'); write(b); write(\'|\'); for (int i = 0; i < b.length; i += 1) { write(b[i]); } write(\'#\'); }\n' + src[:-2] + \
+            ''.join('  pv(gv%d); write(gv%d is byte[]); const byte[] cv%d = gv%d; write(cv%d); write(\'#\');\n' % (i, i, i, i, i) for i in range(len(views))) + '}\n'
     r, err = run_prog(src, ws)
     stats.evaluated(len(strings))
     stats.cls('strings_' + style, len(strings))
@@ -93,8 +99,13 @@ def check_strings(stats, strings, style, ws):
     if err:
         return 'strings %r (style %s): %s' % (strings[:3], style, err)
     exp = b''.join(str(len(s)).encode() + b':' + s + b'|' + s + b'#' for s in strings)
+    exp_views = b''.join(str(len(s)).encode() + b':' + s + b'|' + s + b'#' + s + s + b'#' for s in views)
     if r.outcome.startswith('asm_error'):
         return 'output does not assemble (%s) for strings like %r' % (r.outcome, strings[:3])
+    if r.out.startswith(exp) and r.out != exp + exp_views:
+        return 'string constants in mutable globals viewed as const byte[] (parameter / is byte[] / const binding): printed %r, expected %r (style %s, ws %d)' % (
+            r.out[len(exp):][:120], exp_views[:120], style, ws)
+    exp = exp + exp_views
     if r.out != exp or not r.won:
         pos = 0
         bad = None
